@@ -55,6 +55,30 @@ class Heartbeat(core.Scenario):
         self.scripts = [self.client, self.pongs, self.app]
         if self.tr == 'polling':
             self.client.append(self._poll_action())
+        if p.get('client_msg'):
+            # the peer sends application data right after the first PING, but never a PONG
+            def talk(sc):
+                if sc.tr == 'polling':
+                    peer.post(sc.world, sc.sid, '4still-talking', run=False)
+                else:
+                    sc.world.ws_send(sc.ws, '4still-talking')
+            self.app.append(core.Action('client_msg', talk, None, self.iv + 0.125))
+        if p.get('straddle'):
+            # the upgrade handshake starts just before the first PING is due and completes just after it
+            e1 = self.iv
+
+            def connect(sc):
+                sc.ws = peer.ws_upgrade(sc.world, sc.sid, run=False)
+
+            def probe(sc):
+                sc.world.ws_send(sc.ws, '2probe')
+
+            def upgrade(sc):
+                sc.world.ws_send(sc.ws, '5')
+                sc.tr = 'websocket'
+            self.app += [core.Action('ws_connect', connect, None, e1 - 0.125),
+                         core.Action('probe', probe, lambda sc: sc.ws is not None and sc.ws.accepted, e1 - 0.125),
+                         core.Action('upgrade', upgrade, lambda sc: '3probe' in peer.ws_frames(sc.ws), e1 + 0.125)]
         if p.get('send_at') is not None:
             t = p['send_at']
             self.app.append(core.Action('send', lambda sc: setattr(sc, 'send_call', (sc.world.now, sc.world.call('send', sc.sid, 'app-msg'))),
@@ -93,6 +117,16 @@ class Heartbeat(core.Scenario):
 
     def step_check(self):
         w = self.world
+        if self.params.get('straddle') and self.ws is not None:
+            fr = self.ws.frames
+            while self.frames_seen < len(fr):
+                f = fr[self.frames_seen]
+                self.frames_seen += 1
+                if f[2] == '2' and not self.stopped:
+                    self._on_ping(f[0])
+            if self.polls and self.polls[-1].done:
+                self.polls[-1]._seen = True
+            return
         if self.tr == 'polling':
             if self.polls and self.polls[-1].done and not getattr(self.polls[-1], '_seen', False):
                 r = self.polls[-1]
@@ -123,7 +157,7 @@ class Heartbeat(core.Scenario):
         trig = '%s/%s/%s' % (p['transport'], '+'.join(p['delays']) or 'none', p['mode'])
         disc = [e for e in w.events if e[0] == 'disconnect' and e[1] == self.sid]
         # (a) PING instants: open + interval, then PONG receipt + interval
-        expect = [iv]
+        expect = [iv + 0.125 if p.get('straddle') else iv]      # a PING emitted during the handshake is delivered once it completes
         for k, t in enumerate(self.pong_at):
             expect.append(t + iv)
         punctual = all(d in ('zero', 'early') for d in p['delays'])
@@ -216,6 +250,12 @@ def param_list(ctx):
                             for s in sends:
                                 ps.append({'impl': impl, 'grid': list(g), 'transport': tr, 'delays': list(seq),
                                            'mode': mode, 'monitor': mon, 'send_at': s})
+                            if seq == () and mode == 'mute':
+                                ps.append({'impl': impl, 'grid': list(g), 'transport': tr, 'delays': [], 'mode': 'vanish',
+                                           'monitor': mon, 'send_at': None, 'client_msg': True})
+                            if tr == 'polling' and len(seq) <= 1 and mode == 'mute' and mon and iv > 0.25:
+                                ps.append({'impl': impl, 'grid': list(g), 'transport': 'polling', 'delays': list(seq), 'mode': mode,
+                                           'monitor': mon, 'send_at': None, 'straddle': True})
     return ps
 
 
